@@ -9,7 +9,7 @@ from pathlib import Path
 
 KIND_ANNOTATION = {
     'dict': 'dict', 'list': 'list', 'str': 'str', 'int': 'int', 'numpy': '_np.ndarray', 'frame': '_pd.DataFrame',
-    'generator': '_Gen', 'lazy': '_Gen', 'list_numpy': 'list', 'dir': '_tc.DirData', 'memory': '_objs.MemValue',
+    'generator': '_Gen', 'lazy': '_Gen', 'gen_empty': '_Gen', 'list_numpy': 'list', 'dir': '_tc.DirData', 'memory': '_objs.MemValue',
 }
 KIND_DATA_CLASS = {'lazy': '_tcd.GeneratedDataLazy', 'list_numpy': '_tcd.ListOfNumpyData'}
 
@@ -57,7 +57,7 @@ def objs_source():
     return '''
 import taskchain as _tc
 from taskchain.parameter import ParameterObject as _PO, AutoParameterObject as _APO
-from tcv.runtime import canon_param as _canon, _c, RT as _RT
+from tcv.runtime import stable_repr as _sr, _c, RT as _RT
 
 
 class Oa(_PO):
@@ -66,7 +66,7 @@ class Oa(_PO):
         self.y = y
 
     def repr(self):
-        return 'Oa(' + _canon(self.x) + '|' + _canon(self.y) + ')'
+        return 'Oa(' + _sr(self.x) + '|' + _sr(self.y) + ')'
 
     def tcv_canon(self):
         return ['Oa', _c(self.x), _c(self.y)]
